@@ -7,6 +7,10 @@ package main
 //   corpus  stored past failures
 //   enum    systematic enumeration of interleavings of small fixed scenarios up to a preemption
 //           budget (model validation + search; not the proof)
+//   warm    sequential histories rich in refused operations (rename/create to a taken name, branch
+//           conflicts, deletes of absent ids, operations on removed pools) on one or two long-lived
+//           handles; after EVERY operation each handle's own view (pool list, name↔id resolution,
+//           branch lists, tips, snapshots) must equal a cold handle's view and the sequential state
 //   rand    random scenarios (commits, deletes, branch and pool create/rename/remove) under
 //           random schedules with few preemptions
 // Oracles on the real code, independent of the model: after every returned operation (and after
@@ -257,7 +261,158 @@ func c12Run(c *sink, cs *c12Case, everyStep bool) (*c12Result, bool) {
 		c.Fail("correspondence", "C12:model:"+strings.SplitN(diff, "[", 2)[0], "model and code disagree: "+diff, map[string]any{"case": replay(), "model_request": req})
 		return res, false
 	}
+	// every long-lived handle must see the same lake as a cold one (after the trace was compared:
+	// these reads are not part of the schedule)
+	for k := range cs.Clients {
+		if d := r.CompareHandleWithCold(k); d != "" {
+			c.Fail("oracle", "C12:warm:final", d, replay())
+			return res, false
+		}
+	}
 	return res, true
+}
+
+// ---- warm: long-lived handles, sequential histories rich in refused operations -----------
+
+type c12WarmCase struct {
+	Warm    bool        `json:"warm"`
+	Clients [][]StoreOp `json:"clients"`
+	Order   []int       `json:"order"` // which handle issues its next operation
+}
+
+// c12WarmRun runs the operations one at a time (no overlap).  After every operation — in
+// particular after every operation that reports failure — every handle's own view (pool list,
+// name → id and id → name resolution, branch lists, tips, snapshots) must equal the view of a
+// cold handle and the sequential specification, and the handle must be consistent with itself.
+func c12WarmRun(c *sink, cs *c12WarmCase) {
+	e := NewStoreEngine()
+	r, err := NewStoreRun(e, cs.Clients)
+	if err != nil {
+		c.Fail("harness", "C12:harness:setup", err.Error(), cs)
+		return
+	}
+	spec := NewStoreSpec()
+	for step, cl := range cs.Order {
+		if cl >= len(cs.Clients) {
+			continue
+		}
+		rec := r.RunOne(cl)
+		if rec == nil {
+			continue
+		}
+		c.Stat("warm:result:" + rec.Op.Kind + ":" + strings.SplitN(rec.Res, ":", 2)[0])
+		when := fmt.Sprintf("step %d: after handle %d %s returned %s", step, cl, rec.Op, rec.Res)
+		if rec.Res == "panic" {
+			c.Fail("panic", "C12:panic:"+rec.Op.Kind, rec.Err, cs)
+			return
+		}
+		if !spec.Apply(rec) {
+			c.Fail("oracle", "C12:warm:result:"+rec.Op.Kind+":"+strings.SplitN(rec.Res, ":", 2)[0],
+				fmt.Sprintf("%s (%s), which a sequential execution cannot give here", when, rec.Err), cs)
+			return
+		}
+		pl, cm := r.StoreIDStrings()
+		cold, err := r.Observe()
+		if err != nil {
+			c.Fail("oracle", "C12:readable:pools", when+": cold handle cannot list the lake: "+err.Error(), cs)
+			return
+		}
+		if ok, why := spec.Matches(cold, pl, cm, true); !ok {
+			key := "C12:warm:cold-state"
+			if rec.Res != "ok" {
+				key = "C12:warm:failed-op-visible"
+			}
+			c.Fail("oracle", key, when+": stored state differs from the sequential state: "+why, cs)
+			return
+		}
+		for k := range cs.Clients {
+			if d := r.CompareHandleWithCold(k); d != "" {
+				key := "C12:warm:handle-state"
+				if rec.Res != "ok" {
+					key = "C12:warm:handle-state-after-failure"
+				}
+				c.Fail("oracle", key, when+": "+d, cs)
+				return
+			}
+		}
+	}
+}
+
+func c12WarmCaseGen(c *Ctx) *c12WarmCase {
+	r := c.Rng
+	nh := 1 + r.Intn(2)
+	ops := make([][]StoreOp, nh)
+	var order []int
+	lbl, obj, clbl := 3, 1, 100
+	add := func(h int, o StoreOp) {
+		ops[h] = append(ops[h], o)
+		order = append(order, h)
+	}
+	// handle 0 is the long-lived one; it creates two pools first
+	add(0, createPool(1, 1))
+	add(0, createPool(2, 2))
+	livePools := []int{1, 2}
+	pick := func() int { return livePools[r.Intn(len(livePools))] }
+	objsOf := map[int][]int{}    // pool label -> objects loaded into its main branch
+	commitsOf := map[int][]int{} // pool label -> commit labels issued on it (a branch may only start at a commit of its pool)
+	parentIn := func(p int) int {
+		if l := commitsOf[p]; len(l) > 0 && r.Intn(3) > 0 {
+			return l[r.Intn(len(l))]
+		}
+		return 0
+	}
+	n := 8 + r.Intn(10)
+	for i := 0; i < n; i++ {
+		h := 0
+		if nh > 1 && r.Intn(4) == 0 {
+			h = 1
+		}
+		p := pick()
+		switch x := r.Intn(24); {
+		case x < 4: // rename, often to a taken name
+			add(h, renamePool(p, 1+r.Intn(4)))
+		case x < 6: // refused rename followed by drop by id on the same handle
+			add(h, renamePool(p, 1+r.Intn(2)))
+			add(h, removePool(p))
+		case x < 10: // create, often with a taken name
+			add(h, createPool(lbl, 1+r.Intn(4)))
+			livePools = append(livePools, lbl)
+			lbl++
+		case x < 11:
+			add(h, removePool(p))
+		case x < 14:
+			br := 0
+			if r.Intn(4) == 0 {
+				br = 1
+			}
+			add(h, load(p, br, obj, clbl))
+			commitsOf[p] = append(commitsOf[p], clbl)
+			if br == 0 {
+				objsOf[p] = append(objsOf[p], obj)
+			}
+			obj++
+			clbl++
+		case x < 16:
+			add(h, createBranch(p, 1+r.Intn(2), 0))
+		case x < 18:
+			add(h, removeBranch(p, 1+r.Intn(2)))
+		case x < 20: // delete: present, absent or repeated ids
+			o := 1 + r.Intn(obj)
+			br := r.Intn(2)
+			if l := objsOf[p]; len(l) > 0 && r.Intn(4) > 0 {
+				o, br = l[r.Intn(len(l))], 0
+			}
+			add(h, del(p, br, clbl, o))
+			commitsOf[p] = append(commitsOf[p], clbl)
+			clbl++
+		case x < 22:
+			add(h, del(p, 0, clbl, 1+r.Intn(obj), 1+r.Intn(obj)))
+			clbl++
+		default:
+			add(h, createBranch(p, 1+r.Intn(2), parentIn(p)))
+		}
+	}
+	return &c12WarmCase{Warm: true, Clients: ops, Order: order}
 }
 
 func c12LinClass(why string) string {
@@ -522,6 +677,12 @@ func runC12(c0 *Ctx) {
 	c := &sink{c: c0}
 	c0.Rule("2–4 real lake handles over one in-memory storage.Engine with a cooperative scheduler; a case = per-client lists of 1–3 API operations (load, delete, branch create/remove, pool create/rename/remove) after a sequential setup + a schedule of storage operations; enum: all interleavings of 12 fixed conflict scenarios up to a preemption budget (preemptions before reads of immutable files are skipped); rand: random scenarios under random burst schedules; distinct = distinct (scenario, performed schedule); non-trivial = at least two clients overlap")
 	if c0.Replay != nil {
+		var wc c12WarmCase
+		if json.Unmarshal(c0.Replay, &wc) == nil && wc.Warm {
+			c12WarmRun(c, &wc)
+			c.Eval("warm-replay")
+			return
+		}
 		var cs c12Case
 		if err := json.Unmarshal(c0.Replay, &cs); err != nil || len(cs.Clients) == 0 {
 			var w struct {
@@ -540,6 +701,13 @@ func runC12(c0 *Ctx) {
 		return
 	}
 	for _, raw := range c0.CorpusCases() {
+		var wc c12WarmCase
+		if json.Unmarshal(raw, &wc) == nil && wc.Warm {
+			c12WarmRun(c, &wc)
+			c.Eval("warm-corpus")
+			c.Stat("corpus")
+			continue
+		}
 		var cs c12Case
 		if json.Unmarshal(raw, &cs) == nil && len(cs.Clients) > 0 {
 			res, _ := c12Run(c, &cs, true)
@@ -547,6 +715,24 @@ func runC12(c0 *Ctx) {
 			c12Stats(c, &cs, res)
 			c.Stat("corpus")
 		}
+	}
+	if c0.Want("warm") {
+		n := c0.N(60, 1500)
+		deadline := time.Now().Add(time.Duration(c0.N(25, 240)) * time.Second)
+		cases := make([]*c12WarmCase, n)
+		for i := range cases {
+			cases[i] = c12WarmCaseGen(c0)
+		}
+		ParallelDo(n, c12Workers, func(i int) {
+			if !time.Now().Before(deadline) {
+				c.Stat("warm:skipped-deadline")
+				return
+			}
+			c12WarmRun(c, cases[i])
+			b, _ := json.Marshal(cases[i])
+			c.Eval(string(b))
+			c.Stat("warm:runs")
+		})
 	}
 	if c0.Want("enum") {
 		fixed := c12Fixed()
